@@ -37,6 +37,15 @@ def normalResidual (K : Nat) (xs ys ws : List α) (c : List α) (r : Nat) : α :
 def polyEval (c : List α) (x : α) : α :=
   (c.zipIdx.map (fun (p : α × Nat) => p.1 * spow x p.2)).foldl (· + ·) 0
 
+/-- the two columns of a `Series1` (abscissae, ordinates) as the Rust struct stores them -/
+structure SeriesXY (α : Type) where
+  x : List α
+  y : List α
+
+/-- the coefficient array of a `Polynomial<K>` -/
+structure PolyC (α : Type) where
+  c : List α
+
 /-- `Series1::best_fit_line`: (m, b) -/
 def bestFitLine (ofNat : Nat → α) (xs ys : List α) : α × α :=
   let n := ofNat xs.length
